@@ -29,7 +29,7 @@ func (c *checkDef) Owns(prop string) bool {
 var loggingCases = []string{"two-writer-settings-in-one-document", "backups-then-file", "file-then-back", "rebuild-vs-log-reader", "backups-then-level", "level-then-compress-then-level"}
 
 func racePackages() []string {
-	return []string{"./cache", "./utils/event", "./proxy", "./proxy/certs", "./webserver/auth", "./logging"}
+	return []string{"./cache", "./utils/event", "./proxy", "./proxy/certs", "./webserver/auth", "./logging", "./metrics"}
 }
 
 
@@ -436,7 +436,16 @@ func checkC05() *checkDef {
 			if tier == "thorough" {
 				k, n = 3, 3
 			}
-			return []run{{Pkg: "./proxy", Scenario: "proxy/sched", Params: coalescingScenarios("C05", n), K: k, E: 1, F: 1, Horizon: 8000}}
+			ps := coalescingScenarios("C05", n)
+			if n < 3 {
+				// three clients of which the middle one hangs up while it waits for the shared fetch: the third
+				// still finds the one flight (or its result)
+				for _, be := range []string{"memory", "file"} {
+					ps = append(ps, psched{Name: "cold-client2-of-3-disconnects/" + be, Backend: be, Clients: 3, Start: "cold", Outcome: "cacheable", Cancel: 2, Prop: "C05"})
+					ps = append(ps, psched{Name: "stale-client2-of-3-disconnects/" + be, Backend: be, Clients: 3, Start: "stale-304", Outcome: "cacheable", Cancel: 2, Prop: "C05"})
+				}
+			}
+			return []run{{Pkg: "./proxy", Scenario: "proxy/sched", Params: ps, K: k, E: 1, F: 1, Horizon: 8000}}
 		},
 	}
 }
@@ -520,6 +529,8 @@ func checkC18() *checkDef {
 				{Pkg: "./config", Scenario: "config/update", Params: map[string]any{"depth": d}},
 				{Pkg: "./config", Scenario: "config/persist-faults", Params: map[string]any{}},
 				{Pkg: "./config", Scenario: "config/doc-shapes", Params: map[string]any{}, Workers: 1},
+				// updates accepted while command-line values are in force: the file gets the saved values only
+				{Pkg: "./config", Scenario: "config/override", Params: map[string]any{"depth": 4}},
 				{Pkg: "./proxy", Scenario: "proxy/config-workable", Params: map[string]any{}, Workers: 4},
 			}
 		},
@@ -680,6 +691,8 @@ func checkC15() *checkDef {
 			for _, only := range loggingCases {
 				rs = append(rs, run{Pkg: "./logging", Scenario: "logging/sched", Params: map[string]any{}, K: 1, E: 1, F: 1, Horizon: 20000, Race: true, Workers: 8, Only: only})
 			}
+			// the metrics structure: first polls of two dashboards and request traffic at once
+			rs = append(rs, run{Pkg: "./metrics", Scenario: "metrics/sched", Params: map[string]any{}, K: k + 1, E: 1, Horizon: 3000, Race: true, Workers: 4})
 			return rs
 		},
 	}
@@ -795,6 +808,13 @@ func checkC12() *checkDef {
 						Init:    []string{"S:a:300", "Se:c:100", "T"},
 						Threads: [][]string{{"S:b:100"}, {"D:a"}},
 						Final:   []string{"Q"}})
+					// a metadata refresh (the 304 path) racing a removal, an overwrite and the expiry sweep of the same key
+					ps = append(ps, sched{Name: name("refresh-vs-delete"), cp: base, Prop: "C12", Checks: []string{"counters"},
+						Init: []string{"S:a:100"}, Threads: [][]string{{"U:a"}, {"D:a"}}, Final: []string{"Q"}})
+					ps = append(ps, sched{Name: name("refresh-vs-overwrite"), cp: base, Prop: "C12", Checks: []string{"counters"},
+						Init: []string{"S:a:100"}, Threads: [][]string{{"U:a"}, {"S:a:10"}}, Final: []string{"Q"}})
+					ps = append(ps, sched{Name: name("refresh-vs-expiry-sweep"), cp: base, Prop: "C12", Checks: []string{"counters"},
+						Init: []string{"Se:a:100", "S:c:20", "T"}, Threads: [][]string{{"U:a"}, {"G:c"}}, Final: []string{"Q"}})
 					ps = append(ps, sched{Name: name("overwrite-vs-get"), cp: base, Prop: "C12", Checks: []string{"counters"},
 						Init:    []string{"S:a:100"},
 						Threads: [][]string{{"S:a:50"}, {"G:a", "D:a"}},
